@@ -9,7 +9,9 @@ import common, node_common, vlib
 from node_common import link
 
 LEVEL = "exploration"
-VARIANTS = {"n1": (), "n2": ("CO_SSDO_N=2",), "h0": ("CO_VERIF_SDO_BUF_SEG=3",)}
+VARIANTS = {"n1": (), "n2": ("CO_SSDO_N=2",), "h0": ("CO_VERIF_SDO_BUF_SEG=3",),
+            # unequal numbers of PDOs (the dictionary holds four of each: the surplus communication objects are plain storage)
+            "r2t4": ("CO_RPDO_N=2", "CO_TPDO_N=4"), "r4t2": ("CO_RPDO_N=4", "CO_TPDO_N=2", "CO_SSDO_N=2")}
 
 def full_cfg(n):
     objs = [[0x2100, 0, 0x0F, 0, 1], [0x2101, 0, 0x0F, 0, 2], [0x2102, 0, 0x07, 1, 3, 4], [0x2103, 0, 0x07, 2, 5, 6, 7, 8], [0x2104, 0, 0x06, 0, 9], [0x2105, 0, 0x03, 0, 10],
@@ -78,7 +80,7 @@ def run(ctx):
     ctx.assumptions += [
         "level exploration: the specification (CoChaos) generates the histories, the oracle is instrumentation of the C code (ASan, UBSan incl. array bounds, exact-size heap blocks for dictionary array / object storage / SDO buffer / timer memory / user buffers, CONodeFatalError, 10 s watchdog per behaviour, > 4096 frames per event)",
         "alphabet (~4000 event classes): SDO frames (39 command bytes x 41 multiplexers, both servers, size / block-size / acknowledge boundary values), NMT, SYNC, RPDO / TPDO / EMCY identifiers with DLC 0..8, heartbeats, all LSS command specifiers incl. activate bit timing, SDO client answers, random identifiers; ticks, service / process split, empty and failing CAN reads, failing CAN sends, short NVM counts, and application calls with out-of-range arguments; unconstrained bytes from the seeded PRNG",
-        "dictionaries: a full one (2 SDO servers, client, 4 RPDOs incl. dummies and a synchronous one, 4 TPDOs, 1804h beyond CO_TPDO_N, 1010h/1011h, domains, strings, 32-entry EMCY table) and variants lacking one optional group each; builds: CO_SSDO_N = 1 and 2, and the 3-segment H0 variant; timer frequency 1 kHz in 60 % of the histories, else one of 0, 1, 7, 300, 1500, 1 MHz, 2^32-1 Hz",
+        "dictionaries: a full one (2 SDO servers, client, 4 RPDOs incl. dummies and a synchronous one, 4 TPDOs, 1804h beyond CO_TPDO_N, 1010h/1011h, domains, strings, 32-entry EMCY table) and variants lacking one optional group each; builds: CO_SSDO_N = 1 and 2, the 3-segment H0 variant, and CO_RPDO_N / CO_TPDO_N = 2/4 and 4/2; timer frequency 1 kHz in 60 % of the histories, else one of 0, 1, 7, 300, 1500, 1 MHz, 2^32-1 Hz",
         "one quarter of the walks is replayed a second time with one event pumped 300 times",
         "in-struct overruns that stay inside CO_NODE are invisible to the sanitizers: those are owned by the behavioural checks (C12 for 18xxh:5)",
     ]
@@ -93,7 +95,7 @@ def run(ctx):
         open(cfgp, "w").write(open(os.path.join(vlib.SPEC, "C01_walk.cfg")).read().replace('DictName = "full"', 'DictName = "%s"' % dn))
         ctx.seed_save = ctx.seed
         ctx.seed = ctx.seed * 100 + i
-        w = ctx.gen_walks("CoChaos", cfgp, num=nwalk, depth=70, workers=8, timeout=3000)
+        w = ctx.gen_walks("CoChaos", cfgp, num=nwalk, depth=130, workers=8, timeout=3000)
         ctx.seed = ctx.seed_save
         for b in w:
             for st in b.steps:
@@ -106,7 +108,7 @@ def run(ctx):
             if frnd.random() < 0.4:
                 b.cfg = dict(b.cfg, freq=frnd.choice([0, 0, 1, 7, 300, 1500, 1000000, 4294967295]))
         w = w + pumped(w, ctx.seed + i)
-        for variant in (["n1", "n2"] if q else ["n1", "n2", "h0"]):
+        for variant in (["n1", "n2", "r2t4", "r4t2"] if q else ["n1", "n2", "h0", "r2t4", "r4t2"]):
             ctx.replay(w, common.wrap(preamble), lambda it: False, variant=variant, defines=VARIANTS[variant], ordered=False, label="%s_%s" % (dn, variant), safety_only=True)
         total += w
     ctx.states = max(ctx.states, 1)
